@@ -105,7 +105,7 @@ def run(ctx):
     ev.set(traces_validated_against_impl=len(results), evaluations=nchecks, distinct_nontrivial=len(cases),
            checks_by_kind=kinds, cases_by_universe=by_u, operator_pairs_covered=len(pairs), exhaustive=True,
            rule="every tree of SyltExpr!Shapes2 (depth<=2 over 13 binary, 2 unary, 3 postfix forms, distinct leaf names) and Shapes3 (unary operators over postfix forms with composite bases, alone and as operands; postfix chains on composite bases), "
-                "every unparenthesised chain a op b op c op d, every depth-2 well-typed int/bool tree; distinct by JSON hash; "
+                "every unparenthesised chain a op b op c op d, the same over literals on several lines inside parentheses, chains of 5-10 operands, unary before prime calls, every depth-2 well-typed int/bool tree; distinct by JSON hash; "
                 "each yields 2 parse checks (+2 run checks when typed)",
            samples=[{"min": " ".join(c["min"]), "full": " ".join(c["full"]), "u": c["u"]} for c in cases[:3] + cases[len(cases) // 2:len(cases) // 2 + 3]],
            known_findings_hit=verdicts.known_hits)
